@@ -5,6 +5,8 @@ package main
 
 import (
 	"fmt"
+	"go/constant"
+	"go/token"
 	"go/types"
 	"sort"
 	"strings"
@@ -397,9 +399,138 @@ func checkC11(c *Ctx) {
 			r.ok("FOOTER-FIRST", key, u.Pos(ctor.Pos()), "ReadFooter dominates every call in the constructor that reaches a column read")
 		}
 	}
+	footerGate(c, roots)
 	r.floor("EP/footer/primitive", 4, "getMetaDataSize: Seek, binary.Read; ReadMetaData: Seek, thrift Read")
 	r.floor("EP/footer/derived", 2+len(u.TC), "ReadMetaData->getMetaDataSize, ReadFooter->ReadMetaData, NewParquetReader->ReadFooter per package")
 	r.floor("FOOTER-FIRST", len(u.TC), "one constructor per generated package")
 	r.assume("thrift rejects the bytes a truncated file presents as a footer — NOT decided (value-level)")
 	_ = sort.Strings
+}
+
+// footerGate (C11): two necessary conditions that are visible in code shape — (FOOTER-DECODE) no function on the footer
+// path that returns a *FileMetaData can return it with a nil error unless the thrift decode of the footer has run on
+// that path; (FOOTER-MAGIC) the bytes at the end of the input are compared with the magic "PAR1", the failing side
+// returning an error, before the footer length read next to them is used.
+func footerGate(c *Ctx, roots *srcRoots) {
+	r, u := c.R, c.U
+	reach := u.reach(roots.footer)
+	var fns []*ssa.Function
+	for f := range reach {
+		if u.pkgPathOf(f) == rtPath {
+			fns = append(fns, f)
+		}
+	}
+	sort.Slice(fns, func(i, j int) bool { return fns[i].String() < fns[j].String() })
+	nDecode := 0
+	for _, f := range fns {
+		res := f.Signature.Results()
+		if res.Len() != 2 || !strings.HasSuffix(res.At(0).Type().String(), "schema.FileMetaData") || errIndex(f.Signature) != 1 {
+			continue
+		}
+		nDecode++
+		key := u.FnName(f) + " decode-before-success"
+		var decodes []ssa.Instruction
+		for _, b := range f.Blocks {
+			for _, ins := range b.Instrs {
+				if call, ok := ins.(ssa.CallInstruction); ok {
+					if sc := call.Common().StaticCallee(); sc != nil && sc.Name() == "Read" && strings.Contains(sc.String(), "schema.FileMetaData") {
+						decodes = append(decodes, ins)
+					}
+				}
+			}
+		}
+		bad := ""
+		for _, b := range f.Blocks {
+			ret, ok := lastInstr(b).(*ssa.Return)
+			if !ok {
+				continue
+			}
+			e := ret.Results[1]
+			if call, isCall := e.(*ssa.Call); isCall {
+				isDecode := false
+				for _, d := range decodes {
+					if d == ssa.Instruction(call) {
+						isDecode = true
+					}
+				}
+				if isDecode {
+					continue // returns the decode's own error
+				}
+			}
+			if !isNilConst(e) {
+				if _, isPhi := e.(*ssa.Phi); !isPhi {
+					continue // an error value: not a success
+				}
+			}
+			dom := false
+			for _, d := range decodes {
+				if dominatesInstr(d, ret) {
+					dom = true
+				}
+			}
+			if !dom {
+				bad = u.Pos(ret.Pos())
+			}
+		}
+		if len(decodes) == 0 {
+			r.bad("FOOTER-DECODE", key, u.Pos(f.Pos()), "the footer is never decoded")
+		} else if bad != "" {
+			r.bad("FOOTER-DECODE", key, bad, "the function can return footer metadata with a nil error at "+bad+" without having decoded the footer on that path: input that merely ends in suitable bytes (a truncated file) is accepted as a complete, possibly empty, file")
+		} else {
+			r.ok("FOOTER-DECODE", key, u.Pos(f.Pos()), "every success return is dominated by the thrift decode of the footer (or returns the decode's own error)")
+		}
+	}
+	r.count("FOOTER-DECODE", nDecode)
+	r.floor("FOOTER-DECODE", 1, "ReadMetaData")
+	// magic
+	nMagic := 0
+	for _, f := range fns {
+		for _, b := range f.Blocks {
+			iff, ok := lastInstr(b).(*ssa.If)
+			if !ok {
+				continue
+			}
+			bo, ok := iff.Cond.(*ssa.BinOp)
+			if !ok || (bo.Op != token.EQL && bo.Op != token.NEQ) {
+				continue
+			}
+			isMagic := func(v ssa.Value) bool {
+				k, ok := v.(*ssa.Const)
+				return ok && k.Value != nil && k.Value.Kind() == constant.String && constant.StringVal(k.Value) == "PAR1"
+			}
+			if !isMagic(bo.X) && !isMagic(bo.Y) {
+				continue
+			}
+			nMagic++
+			key := u.FnName(f) + " trailing magic"
+			// mismatch side must return a non-nil error; match side must dominate every nil-error return
+			mismatch, match := b.Succs[0], b.Succs[1]
+			if bo.Op == token.EQL {
+				mismatch, match = match, mismatch
+			}
+			ri := errIndex(f.Signature)
+			okErr := false
+			if ret, ok := lastInstr(mismatch).(*ssa.Return); ok && ri >= 0 && !isNilConst(ret.Results[ri]) {
+				okErr = true
+			}
+			okDom := true
+			for _, b2 := range f.Blocks {
+				if ret, ok := lastInstr(b2).(*ssa.Return); ok && ri >= 0 && isNilConst(ret.Results[ri]) {
+					if !(match == b2 || match.Dominates(b2)) {
+						okDom = false
+					}
+				}
+			}
+			switch {
+			case !okErr:
+				r.bad("FOOTER-MAGIC", key, u.Pos(iff.Pos()), "a missing trailing magic does not make the function return an error")
+			case !okDom:
+				r.bad("FOOTER-MAGIC", key, u.Pos(iff.Pos()), "the function can succeed on a path that has not checked the trailing magic")
+			default:
+				r.ok("FOOTER-MAGIC", key, u.Pos(iff.Pos()), "input that does not end with PAR1 is refused before the footer length is used")
+			}
+		}
+	}
+	r.count("FOOTER-MAGIC", nMagic)
+	r.floor("FOOTER-MAGIC", 1, "getMetaDataSize")
 }
